@@ -11,8 +11,13 @@
                      store/propstore.go (missing|pending|failed|executed; pending written before signing)
      btc_execute     Executor.Execute: messageID := proposals[0].MessageID panics on an empty delivery
      step            deliveries interleaved with the end of signing sessions (watchExecution:
-                     storeProposalsStatus executed/failed; EVM/Substrate: the chain reports executed) and
-                     restarts (in-memory sessions are lost, the store / the chain are not) *)
+                     storeProposalsStatus executed/failed; EVM/Substrate: the chain reports executed),
+                     restarts (in-memory sessions are lost, the store / the chain are not) and retries
+                     releasing stuck proposals (relayer/retry/retry.go isExecuted: pending -> failed), after
+                     which a second, overlapping session over some of the same transfers can be started
+                     while the first one is still running
+     fail_all        storeProposalsStatus(props, failed): PER PROPOSAL, a record that says executed is
+                     left alone (the other session may have succeeded in the meantime) *)
 From Coq Require Import List NArith Bool.
 Import ListNotations.
 Local Open Scope N_scope.
@@ -117,10 +122,13 @@ Inductive op :=
 | ExecOk (b : list key)              (* a signing session over b ends with a successful submission /
                                         EVM, Substrate: the destination now reports b executed *)
 | ExecFail (b : list key)            (* a signing session over b ends with a failed submission *)
-| Restart.
+| Restart
+| Release (b : list key).            (* a retry request finds b: whatever of it is recorded pending is
+                                        released to failed (Bitcoin; EVM/Substrate keep no such record) *)
 
 (* [st]: Bitcoin - the prop store; EVM/Substrate - the destination's executed flags (Done).
-   [inflight]: transfers of the live signing sessions of this process. *)
+   [inflight]: transfers of the live signing sessions of this process, with multiplicity (after a
+   release the same transfer can be in two live sessions at once). *)
 Record state := mkstate { st : store; inflight : list key }.
 
 Definition answer_of (s : store) (e : key * fault) : key * answer :=
@@ -140,6 +148,17 @@ Definition set_all (s : store) (b : list key) (v : pstatus) : store :=
   fold_left (fun a k => set_status a k v) b s.
 Definition subset (b l : list key) : bool := forallb (fun k => kmem k l) b.
 Definition remove_all (b l : list key) : list key := filter (fun k => negb (kmem k b)) l.
+Fixpoint remove_one (k : key) (l : list key) : list key :=
+  match l with [] => [] | x :: r => if key_eqb k x then r else x :: remove_one k r end.
+Definition remove_each (b l : list key) : list key := fold_left (fun a k => remove_one k a) b l.
+
+(* storeProposalsStatus(b, failed): one read and one guarded write per proposal *)
+Definition fail_all (s : store) (b : list key) : store :=
+  fold_left (fun a k => if is_done (lookup a k) then a else set_status a k Failed) b s.
+(* retry.isExecuted over the deposits of a retried block: pending -> failed, anything else stays *)
+Definition is_pending (v : pstatus) : bool := match v with Pending => true | _ => false end.
+Definition release_all (s : store) (b : list key) : store :=
+  fold_left (fun a k => if is_pending (lookup a k) then set_status a k Failed else a) b s.
 
 Definition step (ds : dest) (s : state) (o : op) : state * res :=
   match o with
@@ -148,18 +167,23 @@ Definition step (ds : dest) (s : state) (o : op) : state * res :=
   | ExecOk b =>
       match ds with
       | BTC => if subset b (inflight s)
-               then (mkstate (set_all (st s) b Done) (remove_all b (inflight s)), Ok [])
+               then (mkstate (set_all (st s) b Done) (remove_each b (inflight s)), Ok [])
                else (s, Ok [])
       | _ => (mkstate (set_all (st s) b Done) (remove_all b (inflight s)), Ok [])
       end
   | ExecFail b =>
       match ds with
       | BTC => if subset b (inflight s)
-               then (mkstate (set_all (st s) b Failed) (remove_all b (inflight s)), Ok [])
+               then (mkstate (fail_all (st s) b) (remove_each b (inflight s)), Ok [])
                else (s, Ok [])
       | _ => (mkstate (st s) (remove_all b (inflight s)), Ok [])
       end
   | Restart => (mkstate (st s) [], Ok [])
+  | Release b =>
+      match ds with
+      | BTC => (mkstate (release_all (st s) b) (inflight s), Ok [])
+      | _ => (s, Ok [])
+      end
   end.
 
 (* per op: the state before it and what it handed to signing *)
@@ -172,10 +196,6 @@ Fixpoint trace (ds : dest) (s : state) (ops : list op) : list (state * res) :=
 (* "the destination reports / the relayer has recorded that k is executed or in flight" *)
 Definition eligible (ds : dest) (v : pstatus) : bool :=
   match ds with BTC => executable v | _ => negb (is_done v) end.
-
-(* invariant of the Bitcoin machine: what is in flight is recorded as pending *)
-Definition inv (ds : dest) (s : state) : Prop :=
-  match ds with BTC => forall k, kmem k (inflight s) = true -> lookup (st s) k = Pending | _ => True end.
 
 (* ---- specification as a boolean predicate on observations ---- *)
 
@@ -233,6 +253,6 @@ Fixpoint model_obs (ds : dest) (uni : list key) (s : state) (ops : list op) : li
   end.
 
 Definition op_keys (o : op) : list key :=
-  match o with Deliver d => keys_of d | ExecOk b | ExecFail b => b | Restart => [] end.
+  match o with Deliver d => keys_of d | ExecOk b | ExecFail b | Release b => b | Restart => [] end.
 Definition wf_ops (uni : list key) (ops : list op) : bool :=
   forallb (fun o => forallb (fun k => kmem k uni) (op_keys o)) ops.
